@@ -23,7 +23,15 @@ PARALLEL_PLAN = [("fits", "f4", "par2"), ("fits", "f4", "par3"), ("fits", "f8", 
                  ("fits", "f4", "filter-par2"), ("fits", "f4", "par2")]
 
 ENUM_EXPR_QUICK = ("EnumCases(\"Float\", TRUE, FALSE, LeafMapsOver({%s}), <<4>>, TRUE)" % ", ".join(base.ENUM_MATRICES_QUICK))
-ENUM_EXPR_THOROUGH = "EnumCases(\"Float\", TRUE, FALSE, AllLeafMaps({<<>>, <<1>>, <<3>>}), <<4>>, FALSE)"
+# thorough: 8 matrices with different extremes (zero as minimum / as maximum, negative, a single defined pixel, ...)
+ENUM_MATRICES_THOROUGH = base.ENUM_MATRICES_QUICK + [
+    "<<<<<<>>, <<3>>>>, <<<<>>, <<>>>>>>",            # one defined pixel
+    "<<<<<<-5>>, <<-2>>>>, <<<<0>>, <<>>>>>>",        # non-positive data, maximum exactly 0
+    "<<<<<<1000>>, <<>>>>, <<<<>>, <<-1000>>>>>>",    # the widest range, mean 0
+    "<<<<<<2>>, <<2>>>>, <<<<2>>, <<2>>>>>>",         # constant
+    "<<<<<<>>, <<>>>>, <<<<1>>, <<4>>>>>>",           # one row
+]
+ENUM_EXPR_THOROUGH = ("EnumCases(\"Float\", TRUE, FALSE, LeafMapsOver({%s}), <<6>>, TRUE)" % ", ".join(ENUM_MATRICES_THOROUGH))
 
 
 def inf_probe(ctx):
@@ -70,12 +78,12 @@ def run(ctx):
                 "distinct = (dtype, depth, run, leaves+stale digest); non-trivial = at least one tile above the start level expected")
     quick = ctx.quick
     tasks = [{"name": "MCC14enum", "T": 2, "depth": 1, "expr": ENUM_EXPR_QUICK if quick else ENUM_EXPR_THOROUGH,
-              "family": "each of the 4 leaves absent or one of %s, bottom-up" % ("3 matrices" if quick else "all 81 matrices over {U,1,3}")}]
+              "family": "each of the 4 leaves absent or one of %s, bottom-up" % ("3 matrices" if quick else "8 matrices (9^4 populations)")}]
     tasks += base.plan_binding(ctx, "C14", PLAN, PARALLEL_PLAN, only_fits=True, builder_runs=14 if quick else 150,
                                allow_keepu=False, rewrite_p=0.35)
     def enum_jobs(t, recs):
         js = []
-        step = 1 if quick else 7
+        step = 1
         for i, rec in enumerate(recs):
             if i % step:
                 continue
